@@ -9,7 +9,7 @@ package flyt
 type c13Op struct {
 	kind int
 	key  string
-	val  int
+	val  any // an int, or a pointer to a token: two ops may store distinct pointers to equal contents
 	// observed
 	ok        bool
 	got       any
@@ -133,6 +133,16 @@ func (r *c13Ref) apply(o *c13Op) bool {
 	}
 }
 
+// c13Val: an int or a fresh pointer to a token with fixed contents — values written by different
+// operations are then distinguishable (by identity) although they are deeply equal
+func c13Val(label string) any {
+	if vNondet[bool](label + ".pointerValue") {
+		vCover("pointer-values")
+		return &vTok{id: 7}
+	}
+	return vNondet[int](label + ".val")
+}
+
 func c13NewOp(label string) *c13Op {
 	o := &c13Op{kind: vChoice(label+".kind", c13Kinds)}
 	switch vChoice(label+".key", 3) {
@@ -143,7 +153,7 @@ func c13NewOp(label string) *c13Op {
 	default:
 		o.key = "c"
 	}
-	o.val = vNondet[int](label + ".val")
+	o.val = c13Val(label)
 	return o
 }
 
@@ -152,7 +162,7 @@ func VH_C13_pair() {
 	s := NewSharedStore()
 	pre := c13Ref{}
 	if vNondet[bool]("preA") {
-		v := vNondet[int]("preAval")
+		v := c13Val("preA")
 		s.Set("a", v)
 		pre.hasA, pre.valA = true, v
 	}
